@@ -9,6 +9,7 @@ import (
 	"net"
 	"os"
 	"sync"
+	"sync/atomic"
 	"time"
 )
 
@@ -443,11 +444,12 @@ func (e *End) TakeAll() []byte {
 
 // Listener is an in-memory net.Listener. Dial hands the server end to Accept.
 type Listener struct {
-	hub    *Hub
-	ch     chan *End
-	done   chan struct{}
-	once   sync.Once
-	closed bool
+	hub       *Hub
+	ch        chan *End
+	done      chan struct{}
+	once      sync.Once
+	closed    bool
+	accepting int32 // goroutines waiting in Accept (atomic)
 }
 
 func NewListener(hub *Hub) *Listener {
@@ -460,6 +462,8 @@ func (l *Listener) Accept() (net.Conn, error) {
 		return nil, net.ErrClosed
 	default:
 	}
+	atomic.AddInt32(&l.accepting, 1)
+	defer atomic.AddInt32(&l.accepting, -1)
 	select {
 	case c := <-l.ch:
 		return c, nil
@@ -477,6 +481,10 @@ func (l *Listener) Close() error {
 }
 
 func (l *Listener) Addr() net.Addr { return memAddr("listener") }
+
+// Accepting reports whether a goroutine is waiting in Accept right now (the
+// server's accept loop for this listener is up).
+func (l *Listener) Accepting() bool { return atomic.LoadInt32(&l.accepting) > 0 }
 
 // IsClosed reports whether Close has been called on the listener.
 func (l *Listener) IsClosed() bool {
